@@ -55,46 +55,12 @@ def replaceAll (old new : Bytes) : Nat → Bytes → Bytes
     if old.isPrefixOf (b :: rest) && !old.isEmpty then new ++ replaceAll old new fuel ((b :: rest).drop old.length)
     else b :: replaceAll old new fuel rest
 
-/-- `strconv.Atoi` on a group (bytes of the class only): digits only; `none` also stands for overflow,
+/-- (formerly used by the formatter; now only by the driver's classification of templates) `strconv.Atoi` on a group (bytes of the class only): digits only; `none` also stands for overflow,
     which is indistinguishable here because both lead to "replace by the empty string" -/
 def atoiDigits (g : Bytes) : Option Nat :=
   if g.all (fun b => 48 ≤ b && b ≤ 57) && !g.isEmpty then
     some (g.foldl (fun n b => n * 10 + (b.toNat - 48)) 0)
   else none
-
-structure Formatter where
-  indexes : List Nat
-  fmtStr  : Bytes
-  /-- the template has no reference at all: `fmtStr` is the result -/
-  literal : Bool := false
-  deriving Repr, DecidableEq
-
-/-- `strings.ReplaceAll(template, "%", "%%")` -/
-def escapePct (s : Bytes) : Bytes := s.flatMap fun b => if b == cPct then [cPct, cPct] else [b]
-
-/-- `templateReplaceCaptureRE.ReplaceAllStringFunc(escaped, …)`: ONE left-to-right pass over the (escaped) template;
-    a reference with a usable number becomes `%s` and contributes its index (in match order), any other reference
-    becomes the empty string, everything else is copied. Returns the format string and the indexes. -/
-def substRefs (captureCount : Nat) : Nat → Bytes → Bytes × List Nat
-  | 0, s => (s, [])
-  | _, [] => ([], [])
-  | fuel + 1, b :: rest =>
-    if b == cDollar then
-      match refMatchAt rest with
-      | some (_, g, r) =>
-        let o := substRefs captureCount fuel r
-        match atoiDigits g with
-        | some idx => if idx > captureCount || idx < 1 then o else ([cPct, 115] ++ o.1, (idx - 1) :: o.2)
-        | none => o
-      | none => let o := substRefs captureCount fuel rest; (b :: o.1, o.2)
-    else let o := substRefs captureCount fuel rest; (b :: o.1, o.2)
-
-/-- `NewTemplateFormatter` (since the repair b74fba2: `%` escaped, references substituted in a single pass) -/
-def compileTemplate (tmpl : Bytes) (captureCount : Nat) : Formatter :=
-  if (findRefs tmpl.length tmpl).isEmpty then ⟨[], tmpl, true⟩ else
-  let e := escapePct tmpl
-  let o := substRefs captureCount e.length e
-  ⟨o.2, o.1, false⟩
 
 def missingStr : Bytes := strBytes "%!s(MISSING)"
 
@@ -119,11 +85,6 @@ where
     | [] => []
     | [a] => strBytes "string=" ++ a
     | a :: as => strBytes "string=" ++ a ++ strBytes ", " ++ joinExtra as
-
-/-- `TemplateFormatter.Format`; `none` = a `%` sequence outside the modelled fragment -/
-def Formatter.format (f : Formatter) (caps : List Bytes) : Option Bytes :=
-  if f.literal then some f.fmtStr
-  else sprintfS f.fmtStr (f.indexes.map fun i => caps.getD i [])
 
 /-! ### `regexp.Expand` template syntax -/
 
@@ -204,6 +165,61 @@ def rxNum (name : Bytes) : Option Nat :=
   if name.all isDigitB && !(name.head? == some 48 && name.length > 1) && name.length ≤ 8 then
     some (name.foldl (fun n b => n * 10 + (b.toNat - 48)) 0)
   else none
+
+/-! ### `NewTemplateFormatter` / `Format` (pkg/mapper/fsm/formatter.go) -/
+
+structure Formatter where
+  indexes : List Nat
+  fmtStr  : Bytes
+  /-- the template has no reference at all: `fmtStr` is the result -/
+  literal : Bool := false
+  /-- a reference name of the template contains a rune outside `nameRune`'s fragment: nothing is claimed -/
+  unmodelled : Bool := false
+  deriving Repr, DecidableEq
+
+/-- `strings.ReplaceAll(template, "%", "%%")` -/
+def escapePct (s : Bytes) : Bytes := s.flatMap fun b => if b == cPct then [cPct, cPct] else [b]
+
+/-- `templateReplaceCaptureRE.ReplaceAllStringFunc(escaped, …)` with the reference syntax of `regexp.Expand`
+    (since the repair: ``\$\$|\$\{([\p{L}\p{Nd}_]+)\}|\$([\p{L}\p{Nd}_]+)``): ONE left-to-right pass; `$$` becomes `$`;
+    a well-formed reference (`rxExtractU`, the model of `regexp`'s own `extract`) whose name is a usable group number
+    (`rxNum`, 1..captureCount) becomes `%s` and contributes its index, any other well-formed reference becomes the empty
+    string; a `$` that starts no reference and every other byte are copied. Result: format string, indexes in match
+    order, "some reference or `$$` was seen"; `none` = a name contains an unmodelled rune. -/
+def substRefs (captureCount : Nat) : Nat → Bytes → Option (Bytes × List Nat × Bool)
+  | 0, s => some (s, [], false)
+  | _, [] => some ([], [], false)
+  | fuel + 1, b :: rest =>
+    if b == cDollar then
+      match rest with
+      | c :: rest' =>
+        if c == cDollar then (substRefs captureCount fuel rest').map fun o => (cDollar :: o.1, o.2.1, true)
+        else match rxExtractU rest with
+          | none => none
+          | some none => (substRefs captureCount fuel rest).map fun o => (b :: o.1, o.2.1, o.2.2)
+          | some (some (name, r)) =>
+            (substRefs captureCount fuel r).map fun o =>
+              match rxNum name with
+              | some idx =>
+                if idx > captureCount || idx < 1 then (o.1, o.2.1, true)
+                else ([cPct, 115] ++ o.1, (idx - 1) :: o.2.1, true)
+              | none => (o.1, o.2.1, true)
+      | [] => some ([b], [], false)
+    else (substRefs captureCount fuel rest).map fun o => (b :: o.1, o.2.1, o.2.2)
+
+/-- `NewTemplateFormatter` (`%` escaped, references in `regexp.Expand`'s syntax substituted in a single pass; a template
+    without any reference is kept as it is) -/
+def compileTemplate (tmpl : Bytes) (captureCount : Nat) : Formatter :=
+  let e := escapePct tmpl
+  match substRefs captureCount e.length e with
+  | none => ⟨[], tmpl, false, true⟩
+  | some o => if o.2.2 then ⟨o.2.1, o.1, false, false⟩ else ⟨[], tmpl, true, false⟩
+
+/-- `TemplateFormatter.Format`; `none` = outside the modelled fragment -/
+def Formatter.format (f : Formatter) (caps : List Bytes) : Option Bytes :=
+  if f.unmodelled then none
+  else if f.literal then some f.fmtStr
+  else sprintfS f.fmtStr (f.indexes.map fun i => caps.getD i [])
 
 /-- submatches of one regex match: group i ↦ (subexp name, captured text or none if the group did not participate) -/
 abbrev RxMatch := List (Bytes × Option Bytes)
